@@ -481,6 +481,7 @@ type replay struct {
 	Actions []action    `json:"actions,omitempty"`
 	Conc    *concReplay `json:"concurrent,omitempty"`    // set: a history of the concurrent part (concurrent_test.go)
 	Large   *largeCase  `json:"large_payload,omitempty"` // set: a case of the large-payload part (large_test.go)
+	Latency *latCase    `json:"latency,omitempty"`       // set: a case of the latency part (latency_test.go)
 }
 
 func sizeLists(maxLen int) [][]int {
@@ -923,6 +924,7 @@ func TestCheck(t *testing.T) {
 		"the backing DA fails before it stores anything (no store-then-fail injection); cancellation is only explored as a context that is already dead when the call starts (mid-flight cancellation is timing dependent)",
 		"client MaxBlobSize equals the backing DA's limit (sequential and concurrent part: both shrunk to `blob_size_limit` bytes; large-payload part: both are the default proxy.NewClient sets)",
 		"large-payload part: blob sizes and counts only within the stated grid (totals, shapes, tails in bounds.large_payload; smallest blob size and therefore largest encoding overhead per raw byte as stated); fault-free calls, one caller, HTTP over loopback TCP; a liveness guard of 5 minutes per case (a proxied call that has not returned by then is compared as a failed call); a failing case is run twice and counts only if it fails both times",
+		"latency part: REAL time (the only part whose cases last as long as the latency they describe): the backing DA's first call of one kind waits L on the wall clock before it answers, or the caller pauses for L between two calls; L only from the list in bounds.latency (+1 s above the common server-side timeout values 5/10/15/30 s, 55 s = just below the node's own 60 s budget per DA call, +1 s above every timeout NewServer configures on its http.Server as read through the VerifHTTPTimeouts hook; idle gaps also 125 s); the waiting DA honours its context and stores only after the wait; fault-free calls, one caller per server/client pair, loopback TCP; callers carry no deadline of their own except a liveness guard of L + 2 minutes (a call that has not returned by then is compared as a failed call); a failing case is run twice and counts only if it fails both times. The verdict does not depend on the machine's speed: the unchanged code has no timeout a call of these lengths can reach and a slow machine only lengthens calls; a timeout that is introduced at one of the listed values is exceeded by >= 1 s",
 		"server, client and node helpers keep no state between calls other than the backing store, the HTTP connection pool and the request counter: histories are merged when store contents and the status of the last call agree",
 		"messages and timestamps of DA results are not compared",
 		"concurrent part: another caller of the shared client can run at every log call of the client and of the server (the injected logger), between marshalling a request and handing it to the server (HTTP round trip) and at the entry of the DA; client.go/server.go are not preempted between two such points (da/jsonrpc is built with the lock shim: a caller waiting for a sync.Mutex/RWMutex of that package is parked until the lock is free instead of stalling the scheduler), the DA operation itself is atomic",
@@ -950,6 +952,15 @@ func TestCheck(t *testing.T) {
 			})
 			if c.Diverged != "" {
 				r.EngineError("nondeterminism (concurrent part): " + c.Diverged)
+			}
+		} else if rp.Latency != nil {
+			res := runLatency(*rp.Latency)
+			if res.engine != "" {
+				r.EngineError(res.engine)
+			}
+			for _, v := range res.viols {
+				v.Cost, v.History = rp.Latency.Seconds, rp
+				r.Report(v)
 			}
 		} else if rp.Large != nil {
 			if g, err := newRigWith(rp.Large.Backing, 0); err != nil {
@@ -992,9 +1003,16 @@ func TestCheck(t *testing.T) {
 	exhaustive := true
 
 	kinds := []string{"fake", "dummyda"}
-	only := os.Getenv("VERIF_C16_PART") // development aid: "seq" | "large" | "conc"; a partial run is reported as capped
-	if only == "conc" || only == "large" {
+	only := os.Getenv("VERIF_C16_PART") // development aid: "seq" | "large" | "conc" | "lat"; a partial run is reported as capped
+	if only == "conc" || only == "large" || only == "lat" {
 		kinds = nil
+	}
+	// latency part (latency_test.go): real time, every case on its own server/client pair, all at once and next to the other parts
+	latDone := make(chan latResult, 1)
+	if only == "" || only == "lat" {
+		go func() { latDone <- latencyPart(r) }()
+	} else {
+		latDone <- latResult{}
 	}
 	if only != "" {
 		caps = append(caps, "development run of part "+only+" only")
@@ -1134,13 +1152,16 @@ func TestCheck(t *testing.T) {
 		concLins[h] = struct{}{}
 	}
 
+	tr := <-latDone
+	caps = append(caps, tr.Caps...)
+
 	pairList := make([]string, 0, len(pairs))
 	for k, n := range pairs {
 		pairList = append(pairList, fmt.Sprintf("%s (%d histories)", k, n))
 	}
 	sort.Strings(pairList)
 	r.Finish(vf.Coverage{
-		Evaluations: histories.Load() + cr.Execs + lr.Cases, DistinctNontrivial: int64(len(distinct)+len(concLins)) + lr.Cases, States: int64(len(states)), Transitions: calls.Load() + cr.DACalls + lr.Calls,
+		Evaluations: histories.Load() + cr.Execs + lr.Cases + tr.Cases, DistinctNontrivial: int64(len(distinct)+len(concLins)) + lr.Cases + tr.Cases, States: int64(len(states)), Transitions: calls.Load() + cr.DACalls + lr.Calls + tr.Calls,
 		Rule: "SEQUENTIAL PART: every history of at most `depth` calls whose non-final calls come from the core alphabet and whose final call ranges over the whole alphabet " +
 			"(SubmitWithHelpers with every blob list of length <=3 over sizes {0,1,limit-1,limit,limit+1} x {no fault, each injected backing error, caller context already cancelled}; " +
 			"RetrieveWithHelpers at heights 0..4 (empty, populated, future in both pre-states) x {no fault, each injected error at GetIDs, at Get, cancelled context}; one DA block passes), " +
@@ -1151,11 +1172,15 @@ func TestCheck(t *testing.T) {
 			"CONCURRENT PART: for every multiset of `callers` caller programs (1-2 operations each: SubmitWithHelpers with a batch that fits / is truncated to a prefix / [thorough] has an oversize blob, DA.Submit, RetrieveWithHelpers at the height being written / [thorough] an old / a future height, DA.Get of the ids the caller just got back; every blob content unique to its caller) " +
 			"on ONE real jsonrpc client in front of ONE real server, fresh or [thorough] already used for a completed submission: every interleaving with at most `max_preemptive_switches` preemptions (switching away from a caller that could go on costs 1 per position in the ready list; switching when a caller returns is free) over the scheduling points listed in the assumptions, enumerated by the engine with replay-divergence checking; " +
 			"oracle per interleaving: all callers return; each result (status, submitted count, ids, blobs) equals that of the same program run in-process in the DA call order observed behind the proxy; both stores are equal; behind the proxy the ids handed to a caller hold exactly the first `count` blobs of that caller and the number of stored blobs equals the sum of the reported counts; " +
-			"evaluations = sequential histories + interleavings executed, transitions = helper calls + DA calls behind the proxy, distinct additionally counts distinct (workload, DA call order) pairs",
+			"LATENCY PART (real time, bounds.latency): for every latency L of the tier and each of {SubmitWithHelpers whose DA SubmitWithOptions waits L (batch cut to a prefix), RetrieveWithHelpers whose DA GetIDs waits L, RetrieveWithHelpers whose DA Get waits L}: the slow call, then fast calls on the same client (read-back of the written height / retrieve + submit); and for every idle-gap length: submit, pause, retrieve + submit + read-back on the same client; each case on its own real server + client pair over loopback with a direct and a proxied instance of the same waiting double called at the same time, all cases running concurrently with each other and with the other parts; " +
+			"oracle: status, submitted count, ids and blobs of every call equal on both paths, both stores equal, the store behind the proxy holds exactly the prefixes reported as submitted; " +
+			"LARGE-PAYLOAD PART: see bounds.large_payload and the assumptions; " +
+			"evaluations = sequential histories + interleavings executed + large-payload cases + latency cases, transitions = helper calls + DA calls behind the proxy, distinct additionally counts distinct (workload, DA call order) pairs and the cases of the large-payload and latency parts",
 		Exhaustive: exhaustive && len(caps) == 0, Caps: caps,
 		Bounds: map[string]any{"depth": depth, "alphabet": len(acts), "core_alphabet": nCore, "blob_size_limit": limit, "blob_sizes": blobSizes, "max_list_len": 3,
-			"retrieve_heights": retrieveHeights, "injected_error_kinds": len(errKinds), "pre_states": []string{"empty", "populated"}, "backings": []string{"fake(error-injecting double)", "core/da.DummyDA"}, "runs": perRun, "concurrent": cr.Bounds, "large_payload": lr.Bounds},
-		Extra: map[string]any{"large_payload_cases": lr.Cases, "large_payload_calls": lr.Calls, "large_payload_raw_blob_bytes_through_the_proxy": lr.RawBytes,
+			"retrieve_heights": retrieveHeights, "injected_error_kinds": len(errKinds), "pre_states": []string{"empty", "populated"}, "backings": []string{"fake(error-injecting double)", "core/da.DummyDA"}, "runs": perRun, "concurrent": cr.Bounds, "large_payload": lr.Bounds, "latency": tr.Bounds},
+		Extra: map[string]any{"latency_cases": tr.Cases, "latency_helper_calls": tr.Calls, "latency_DA_calls_that_waited_the_whole_latency": tr.Waited, "latency_outcome_classes": tr.Classes,
+			"large_payload_cases": lr.Cases, "large_payload_calls": lr.Calls, "large_payload_raw_blob_bytes_through_the_proxy": lr.RawBytes,
 			"large_payload_largest_raw_request_bytes": lr.MaxReq, "large_payload_largest_raw_response_bytes": lr.MaxResp, "large_payload_outcome_classes": lr.Classes,
 			"sequential_histories": histories.Load(), "concurrent_interleavings_executed": cr.Execs, "concurrent_interleavings_with_overlapping_calls": cr.Overlap,
 			"concurrent_workloads": cr.Workloads, "concurrent_distinct_(workload, DA call order)": len(concLins), "concurrent_scheduling_decisions": cr.Points, "concurrent_max_decisions_in_one_interleaving": cr.MaxDepth,
